@@ -207,4 +207,8 @@ def run(ctx: Ctx):
         except Violation as e:
             ctx.add_violation(case, str(e))
             return
-    run_given(ctx, "unordered", cases(), check_unordered, per_shard(ctx, 1100 if q else 36000), batch=50)
+    if not run_given(ctx, "unordered", cases(), check_unordered, per_shard(ctx, 1100 if q else 36000), batch=50):
+        return
+    if not q:
+        # larger tables and more chunks: more epochs per merge, more rows split across chunks
+        run_given(ctx, "unordered-wide", cases(5, 9, 16), check_unordered, per_shard(ctx, 12000), batch=50)
